@@ -1,4 +1,4 @@
--- PINNED by bin/pin_tables: copy of Gen/Skip.lean as generated from /repo at 36172fa — regenerate, do not edit
+-- PINNED by bin/pin_tables: copy of Gen/Skip.lean as generated from /repo at dee58c0 — regenerate, do not edit
 import Ggql.Model.Skip
 namespace Ggql.Pinned
 open Ggql.Skip
